@@ -42,6 +42,53 @@ func (s *tokScanner) Scan() (*token.Token, token.Position) {
 	return token.NewToken(t, []byte("x")), pos
 }
 
+// A long-lived parser object, used for every sequence of the run next to a
+// fresh one: main.go creates one parser per run, but nothing in the parser's
+// interface says it may not be used again, and its verdicts must not depend on
+// what it parsed before.
+var (
+	reusedParser *parser.Parser
+	reusedReds   *[]reduction
+)
+
+func runReused(types []token.Type) (accepted bool, reds []reduction, panicMsg string) {
+	tm := token.FRONTENDTokens
+	if reusedParser == nil {
+		var sink []reduction
+		reusedReds = &sink
+		tab := make(parser.ProdTab, len(parser.ProductionsTable))
+		for i, e := range parser.ProductionsTable {
+			e := e
+			tab[i] = parser.ProdTabEntry{String: e.String, Head: e.Head, NumSymbols: e.NumSymbols,
+				ReduceFunc: func(X []parser.Attrib) (parser.Attrib, error) {
+					r := reduction{Head: string(e.Head)}
+					for _, x := range X {
+						switch v := x.(type) {
+						case *token.Token:
+							r.Body = append(r.Body, tm.TokenString(v.Type))
+						case *node:
+							r.Body = append(r.Body, v.head)
+						default:
+							r.Body = append(r.Body, fmt.Sprintf("?%T", x))
+						}
+					}
+					*reusedReds = append(*reusedReds, r)
+					return &node{head: string(e.Head)}, nil
+				}}
+		}
+		reusedParser = parser.NewParser(parser.ActionTable, parser.GotoTable, tab, tm)
+	}
+	*reusedReds = nil
+	defer func() {
+		if p := recover(); p != nil {
+			panicMsg = fmt.Sprint(p)
+			reusedParser = nil // a panic may leave it in any state
+		}
+	}()
+	_, err := reusedParser.Parse(&tokScanner{types: types})
+	return err == nil, *reusedReds, ""
+}
+
 // runFrontEnd parses the type sequence with the shipped tables.
 func runFrontEnd(types []token.Type) (accepted bool, root string, reds []reduction, panicMsg string) {
 	tm := token.FRONTENDTokens
@@ -108,6 +155,7 @@ func typesOf(names []string) []token.Type {
 }
 
 type c15Env struct {
+	noReuse bool
 	sp    *spec.Spec
 	prods map[string]bool // "Head : a b c"
 	d     *cfg.Deriver
@@ -153,6 +201,12 @@ func (e *c15Env) eval(c C15Case) string {
 	}
 	if got != want {
 		return fmt.Sprintf("token sequence %v: sentence of spec/gocc2.ebnf: %v, accepted by the shipped tables: %v", c.Toks, want, got)
+	}
+	if !e.noReuse {
+		rgot, rreds, rpm := runReused(typesOf(c.Toks))
+		if rpm != "" || rgot != got || fmt.Sprint(rreds) != fmt.Sprint(reds) {
+			return fmt.Sprintf("token sequence %v: a parser object that was used before gives accepted=%v, %d reductions %s; a fresh parser gives accepted=%v, %d reductions", c.Toks, rgot, len(rreds), rpm, got, len(reds))
+		}
 	}
 	for _, r := range reds {
 		k := r.Head + " : " + strings.Join(r.Body, " ")
